@@ -562,6 +562,14 @@ func oneTrace(w *traceWriter, rng *rand.Rand, id int, st *stats) {
 			}
 			total += len(b.pkts)
 			feeds = append(feeds, feed{fc, b})
+			if rng.Intn(4) == 0 {
+				// a socket read error right after a non-empty batch (the receiver holds a partly used
+				// pre-fetch at that moment)
+				feeds = append(feeds, feed{fc, burst{err: true}})
+				if rng.Intn(3) == 0 {
+					feeds = append(feeds, feed{fc, burst{err: true}})
+				}
+			}
 		}
 		nbfd := rng.Intn(6)
 		if family == 2 {
